@@ -102,6 +102,16 @@ impl<TNodeId, TVal: Eq> PendingNode<TNodeId, TVal> {
     pub fn set_ready_at(&mut self, t: Instant) {
         self.replace = t;
     }
+
+    #[cfg(feature = "verif-hooks")]
+    pub fn verif_key(&self) -> &Key<TNodeId> {
+        &self.node.key
+    }
+
+    #[cfg(feature = "verif-hooks")]
+    pub fn verif_ready_at(&self) -> Instant {
+        self.replace
+    }
 }
 
 /// A `Node` in a bucket, representing a peer participating
